@@ -28,7 +28,14 @@ pub enum WAct {
     },
     Lose { r: u8 },
     /// single: 0 = for everyone, else the reader the sample is written for; big = fragmented
-    Write { single: u8, big: bool },
+    /// ts: source timestamp the application gives: "" / "inc" increasing with every write, "same" the same for all,
+    /// "dec" decreasing, "none" no timestamp
+    Write {
+        single: u8,
+        big: bool,
+        #[serde(default)]
+        ts: String,
+    },
     /// dst: "" no INFO_DST, "own" INFO_DST naming the writer's participant, "other" INFO_DST naming another participant
     /// (the ACKNACK is then not for this writer at all); nbits / dirty: shape of the bitmap (see reader driver)
     AckNack {
@@ -209,13 +216,18 @@ impl WExec {
                 self.acknack_count.remove(r);
                 self.common(json!({"ev":"Lose","r":r}), &[], out);
             }
-            WAct::Write { single, big } => {
+            WAct::Write { single, big, ts } => {
                 let sn_next = self.written.len() as i64 + 1;
                 let value = value_of(sn_next, *big, self.frag);
                 let mut full = vec![0x00, 0x01, 0x00, 0x00];
                 full.extend_from_slice(&value);
                 self.written.insert(sn_next, full);
-                let (sn, sent) = self.rig.write(value, if *single == 0 { None } else { Some(reader_guid(*single)) }, Some(5000 + sn_next as u32));
+                let (sn, sent) = self.rig.write(value, if *single == 0 { None } else { Some(reader_guid(*single)) }, match ts.as_str() {
+                    "same" => Some(5000),
+                    "dec" => Some(4000 - sn_next as u32),
+                    "none" => None,
+                    _ => Some(5000 + sn_next as u32),
+                });
                 assert_eq!(sn, sn_next);
                 self.common(json!({"ev":"Write","pid":1000 + sn,"single":single}), &sent, out);
             }
@@ -363,6 +375,8 @@ pub fn random_run(rng: &mut StdRng, n_events: usize) -> WRunSpec {
         _ => rng.gen_range(3..40),
     };
     let frag = 64;
+    // how the application stamps its samples in this run
+    let ts_shape = ["inc", "inc", "same", "dec", "none"][rng.gen_range(0..5)];
     let mut acts = vec![];
     let mut last = 0i64;
     let mut matched = [false; 4];
@@ -373,7 +387,7 @@ pub fn random_run(rng: &mut StdRng, n_events: usize) -> WRunSpec {
         let r = rng.gen_range(1..=3u8);
         if x < 35 {
             let single = if rng.gen_bool(0.15) { rng.gen_range(1..=3u8) } else { 0 };
-            acts.push(WAct::Write { single, big: rng.gen_bool(0.1) });
+            acts.push(WAct::Write { single, big: rng.gen_bool(0.1), ts: ts_shape.to_string() });
             last += 1;
         } else if x < 45 {
             if matched[r as usize] && rng.gen_bool(0.5) {
@@ -454,14 +468,14 @@ pub fn hostile_specs(seed: u64, runs: usize) -> Vec<WRunSpec> {
         }
         let n = rng.gen_range(1..8);
         for _ in 0..n {
-            acts.push(WAct::Write { single: 0, big: rng.gen_bool(0.2) });
+            acts.push(WAct::Write { single: 0, big: rng.gen_bool(0.2), ts: String::new() });
         }
         acts.push(WAct::Hostile { r: 3, cls: cls.to_string() });
         if matched {
             acts.push(WAct::Lose { r: 3 });
         }
         for _ in 0..rng.gen_range(1..5) {
-            acts.push(WAct::Write { single: 0, big: false });
+            acts.push(WAct::Write { single: 0, big: false, ts: String::new() });
         }
         let last = n as i64 + 4;
         acts.push(WAct::AckNack { r: 1, base: 1, set: vec![1, 2], dst: String::new(), nbits: 0, dirty: false });
